@@ -35,7 +35,10 @@ def run(tier):
             'wsclose': 0}
     urls = [('http://host:5000', 'engine.io'), ('https://host', '/custom/path/'),
             ('http://host:8080/ignored/path?token=abc&x=1', 'engine.io'),
-            ('wss://host.example:8443?room=a%20b', 'eio'), ('ws://h', '/e.io')]
+            ('wss://host.example:8443?room=a%20b', 'eio'), ('ws://h', '/e.io'),
+            # blank-valued arguments, bare flags and repeated keys are part of the caller's query
+            ('http://host:5000?room=&user=bob', 'engine.io'), ('https://host/?debug', 'eio'),
+            ('http://h:81/x?a=1&a=2&token=', '/engine.io/')]
     for impl in ('sync', 'async'):
         plans.append(dict(what='random conversations: PINGs with data, bursts, NOOPs, unknown types, '
                                'sends of every payload kind', impl=impl, cfg={},
